@@ -75,3 +75,36 @@ mod tests {
         assert!(stack.pop(&id));
     }
 }
+
+/// Verification hooks: forwarders to the private `SpanStack` methods.
+#[cfg(tracing_verif)]
+#[doc(hidden)]
+#[allow(missing_docs, missing_debug_implementations, unreachable_pub)]
+pub mod __verif {
+    use super::{Id, SpanStack};
+
+    #[derive(Default)]
+    pub struct VSpanStack(SpanStack);
+
+    impl VSpanStack {
+        pub fn push(&mut self, id: u64) -> bool {
+            self.0.push(Id::from_u64(id))
+        }
+        pub fn pop(&mut self, id: u64) -> bool {
+            self.0.pop(&Id::from_u64(id))
+        }
+        pub fn current(&self) -> Option<u64> {
+            self.0.current().map(Id::into_u64)
+        }
+        /// `iter()` collected into a fixed array (most recent first), with its length.
+        pub fn iter_ids(&self) -> ([u64; 8], usize) {
+            let mut out = [0u64; 8];
+            let mut n = 0;
+            for id in self.0.iter() {
+                out[n] = id.into_u64();
+                n += 1;
+            }
+            (out, n)
+        }
+    }
+}
